@@ -61,6 +61,9 @@ def run(chk: Check) -> None:
     from .c06 import rearm_after_interruption
     rearm_after_interruption(chk, 'SYM-waiting-restored')
     load_restores_only_saved_children(chk, 'SYM-stepper-child')
+    # a process started without inputs has ``inputs == {}`` -- before AND after a restore (shared with C07)
+    from .c07 import falsy_values_survive
+    falsy_values_survive(chk, 'SYM-load-context')
     # "no completed step is executed again": the outcome of a step interrupted by a pause is entered before anything (a listener, a hook) can take a checkpoint (shared with C05)
     from .c05 import outcome_entered_before_pause_hooks
     outcome_entered_before_pause_hooks(chk, 'SYM-no-step-twice')
